@@ -841,10 +841,16 @@ impl VLog {
 
 	/// Retrieves a value using a ValuePointer
 	pub(crate) fn get(&self, pointer: &ValuePointer) -> Result<Value> {
-		// Check unified block cache first
-		if let Some(cached_value) = self.opts.block_cache.get_vlog(pointer.file_id, pointer.offset)
+		// Check unified block cache first. A cached value is served only to a pointer that
+		// matches the one it was read for: once a file has been cut short and appended to
+		// again, an older pointer can name the offset of a different entry, and that
+		// pointer has to go through the checks below.
+		if let Some((cached_value, checksum)) =
+			self.opts.block_cache.get_vlog_entry(pointer.file_id, pointer.offset)
 		{
-			return Ok(cached_value);
+			if checksum == pointer.checksum && cached_value.len() == pointer.value_size as usize {
+				return Ok(cached_value);
+			}
 		}
 
 		let file = self.get_file_handle(pointer.file_id)?;
@@ -939,7 +945,12 @@ impl VLog {
 		let value_bytes = entry_data_vec[value_start..crc_start].to_vec();
 
 		// Cache the value in unified block cache for future reads
-		self.opts.block_cache.insert_vlog(pointer.file_id, pointer.offset, value_bytes.clone());
+		self.opts.block_cache.insert_vlog(
+			pointer.file_id,
+			pointer.offset,
+			value_bytes.clone(),
+			pointer.checksum,
+		);
 
 		Ok(value_bytes)
 	}
